@@ -35,6 +35,19 @@ struct C12 : Scenario {
         Cfg c = swarm_cfg(r, o);
         if (r.chance(0.3)) vary_machine(r, c);
         if (r.chance(0.3)) { wild_cfg(r, c); p.seti("wild", 1); }
+        // long histories on a tiny grid (a tenth of the groups): counters, stamps and caches that wrap or refill after 2^k steps;
+        // renormalisation and output cadences are placed on and around powers of two
+        bool longrun = r.chance(0.1);
+        if (longrun) {
+            c.grid = r.range(8, 12); c.steps = r.range(40, 120);
+            long nsteps = r.pick(std::vector<long>{257, 300, 513, 520, 600, 1025}) + r.range(0, 30);
+            c.rotations = (nsteps - 0.5) / (double)c.steps;
+            c.renorm = r.pick(std::vector<long>{-1, 0, 64, 128, 256, 256, 512, 100});
+            if (c.currents.size() > 1) c.padding = 2;
+            p.seti("longrun", 1);
+        }
+        // a group may start from the results file of an earlier leg (which carries that leg's charge drift)
+        if (!longrun && c.currents.size() == 1 && c.rf_mod_ampl == 0 && r.chance(0.25)) p.seti("fromfile", r.range(2, 9));
         Derived d = derive(c);
         c.tracking = ""; c.verbose = false;
         c.to_plan(p);
@@ -43,10 +56,12 @@ struct C12 : Scenario {
         p.seti("nvar", k);
         long last = d.laststep;
         std::vector<long> outs = {0, 1, 2, 3, 7, last, last + 5, std::max(1L, last / 2)};
+        if (longrun) outs = {0, 64, 100, 128, 256, 256, 512, last, last + 5, 37};
         for (long i = 0; i < k; i++) {
             std::string pre = "v" + std::to_string(i) + ".";
             p.seti(pre + "outstep", i == 0 ? 1 : r.pick(outs));
             p.seti(pre + "saveps", i == 0 ? 1 : r.pick(std::vector<long>{0, 1, 2, 5}));
+            if (longrun && i == 0) p.seti(pre + "outstep", 128);
             p.seti(pre + "tracking", r.chance(0.5));
             p.seti(pre + "fptrack", r.range(0, 3));
             p.seti(pre + "verbose", r.chance(0.4));
@@ -94,6 +109,16 @@ struct C12 : Scenario {
             o.mixfp(r.evhash()); if (planner == 0) o.mixfp(out.digest());
             return true;
         };
+        if (plan.geti("fromfile", 0) > 0) {
+            // an earlier leg of a few steps on the same machine; every member of the group continues from its last record
+            Cfg c0 = base; c0.output = "pre.h5"; c0.outstep = 1; c0.saveps = 1; c0.renorm = base.renorm;
+            c0.rotations = (plan.geti("fromfile") - 0.5) / d.steps;
+            Launch l0 = make_launch(c0, rc.workdir, "pre", entropy, planner);
+            LaunchResult r0 = run_launch(l0); o.launches++;
+            if (!r0.exited || r0.code != 0) { o.set_infra("earlier leg failed: " + r0.describe() + " " + tail(r0.err)); return o; }
+            base.startfile = "pre.h5";
+            o.probe("reach.group_starts_from_results_file");
+        }
         if (planner == 1) {
             // "the same FFT wisdom": a warm-up launch creates the wisdom files every member then loads
             Variant w{0, 0, 0, false, false, "warm.h5"};
@@ -173,6 +198,7 @@ struct C12 : Scenario {
         o.probe("reach.common_records", common);
         if (planner == 1) o.probe("reach.planner_real");
         if (plan.geti("wild", 0)) o.probe("reach.wild_configuration");
+        if (plan.geti("longrun", 0)) o.probe("reach.more_than_256_steps");
         if (base.renorm > 0) o.probe("reach.renormalisation_every_n");
         if (d.has_wake) o.probe("reach.with_wake");
         if (d.nbunches > 1) o.probe("reach.multibunch");
@@ -216,6 +242,7 @@ struct C12 : Scenario {
             if (p.get(pre + "output") != "out.h5") { Plan q = p; q.set(pre + "output", "out.h5"); out.push_back(q); }
         }
         if (p.geti("planner")) { Plan q = p; q.seti("planner", 0); out.push_back(q); }
+        if (p.geti("fromfile", 0)) { Plan q = p; q.erase("fromfile"); out.push_back(q); }
         return out;
     }
 };
